@@ -141,7 +141,7 @@ def run_dag_case(v, case, rng, scratch, keys):
                         v.bad(f"calls/subpipeline/{label}", f"{o}: extra={extra} missing={miss}", **w)
                 fn = {f.__name__ for f in sub.functions}
                 if fn != set(need):
-                    v.bad(f"subpipeline-functions/{label}", f"subpipeline keeps {sorted(fn)}, needed {sorted(need)}", **w)
+                    v.count("diag_subpipeline_keeps_other_functions")  # diagnostic: only *invocations* are demanded (call log)
             # (b)/(c) map with output_names / auto_subpipeline
             for how in (["output_names"] if not cut else []) + ["auto_subpipeline"]:
                 probes.log_clear(log)
